@@ -1002,3 +1002,105 @@ Proof. repeat split; vm_compute; reflexivity. Qed.
 Example glob_neg_rb_raises :
   glob_match_model true [91; 33; 93; 40; 93] [47; 120] = Ok None.      (* match("[!](]", "/x") : re.error *)
 Proof. vm_compute; reflexivity. Qed.
+
+(* ------------------------------------------------------------------ *)
+(* 6. _translate_glob raises nothing but IllegalBackReference          *)
+(*    (the ValueError of glob._translate and the IndexError of stuff[0] are unreachable) *)
+(* ------------------------------------------------------------------ *)
+
+Lemma has_dstar_cons2 a b r :
+  has_dstar (a :: b :: r) = (N.eqb a c_star && N.eqb b c_star) || has_dstar (b :: r).
+Proof. reflexivity. Qed.
+
+Lemma has_dstar_tail a r : has_dstar (a :: r) = false -> has_dstar r = false.
+Proof.
+  destruct r as [|b r']; [reflexivity|]. rewrite has_dstar_cons2. intro H.
+  apply orb_false_iff in H. tauto.
+Qed.
+
+Lemma has_dstar_skipn n : forall s, has_dstar s = false -> has_dstar (skipn n s) = false.
+Proof.
+  induction n as [|n IH]; intros s H; [exact H|]. destruct s as [|a r]; [reflexivity|].
+  apply IH. exact (has_dstar_tail _ _ H).
+Qed.
+
+Lemma tr_ast_glob_total : forall fuel p, has_dstar p = false -> exists r, tr_ast true fuel p = Ok r.
+Proof.
+  induction fuel as [|f IH]; intros p H; [eexists; reflexivity|].
+  cbn [tr_ast]. destruct p as [|c r]; [eexists; reflexivity|].
+  pose proof (has_dstar_tail _ _ H) as Hr.
+  destruct (N.eqb c c_star) eqn:E.
+  { assert (Hs : starts_c c_star r = false).
+    { destruct r as [|b r']; [reflexivity|]. rewrite has_dstar_cons2, E in H.
+      apply orb_false_iff in H as [H1 _]. exact H1. }
+    rewrite Hs. cbn [andb]. destruct (IH r Hr) as [t ->]. eexists; reflexivity. }
+  destruct (N.eqb c c_q).
+  { destruct (IH r Hr) as [t ->]. eexists; reflexivity. }
+  destruct (N.eqb c c_lb).
+  { destruct (scan_class r) as [j|] eqn:Ej.
+    - destruct (class_atoms_ok true r j Ej) as [k ->].
+      destruct (IH (skipn (S j) r) (has_dstar_skipn _ _ Hr)) as [t ->]. eexists; reflexivity.
+    - destruct (IH r Hr) as [t ->]. eexists; reflexivity. }
+  destruct (IH r Hr) as [t ->]. eexists; reflexivity.
+Qed.
+
+Lemma split_dstar_cons2 a b r :
+  split_dstar (a :: b :: r)
+  = if N.eqb a c_star && N.eqb b c_star then [] :: split_dstar r else cons_head a (split_dstar (b :: r)).
+Proof. reflexivity. Qed.
+
+Lemma split_dstar_head b r :
+  exists h t, split_dstar (b :: r) = h :: t /\ (h = [] \/ exists h', h = b :: h').
+Proof.
+  destruct r as [|b2 r2].
+  - exists [b], []. split; [reflexivity|]. right. exists []. reflexivity.
+  - rewrite split_dstar_cons2. destruct (N.eqb b c_star && N.eqb b2 c_star).
+    + eexists _, _. split; [reflexivity|]. left. reflexivity.
+    + destruct (split_dstar (b2 :: r2)) as [|h0 t0]; cbn [cons_head];
+        eexists _, _; (split; [reflexivity|]); right; eexists; reflexivity.
+Qed.
+
+(* the pieces of component.split("**") contain no "**" *)
+Lemma split_dstar_pieces : forall n s, (length s <= n)%nat ->
+  Forall (fun x => has_dstar x = false) (split_dstar s).
+Proof.
+  induction n as [|n IH]; intros s Hl.
+  - destruct s; [|simpl in Hl; lia]. repeat constructor.
+  - destruct s as [|a [|b r']]; [repeat constructor..|].
+    rewrite split_dstar_cons2. destruct (N.eqb a c_star && N.eqb b c_star) eqn:E.
+    + constructor; [reflexivity|]. apply IH. simpl in Hl. lia.
+    + assert (F : Forall (fun x => has_dstar x = false) (split_dstar (b :: r'))) by (apply IH; simpl in *; lia).
+      destruct (split_dstar_head b r') as [h [t [Eh Hh]]]. rewrite Eh in *. cbn [cons_head].
+      inversion F as [|? ? H1 H2]; subst. constructor; [|exact H2].
+      destruct Hh as [-> | [h' ->]]; [reflexivity|]. rewrite has_dstar_cons2, E. exact H1.
+Qed.
+
+Lemma map_o_total l : Forall (fun x => has_dstar x = false) l -> exists rs, map_o glob_translate_ast l = Ok rs.
+Proof.
+  induction 1 as [|x r Hx _ IH]; [eexists; reflexivity|].
+  cbn [map_o]. destruct (tr_ast_glob_total (S (length x)) x Hx) as [t Ht].
+  change (glob_translate_ast x) with (tr_ast true (S (length x)) x). rewrite Ht. cbn [bind].
+  destruct IH as [rs ->]. eexists; reflexivity.
+Qed.
+
+Lemma glob_components_total l : exists x, glob_components_ast l = Ok x.
+Proof.
+  induction l as [|c r [y Hy]]; [eexists; reflexivity|].
+  cbn [glob_components_ast]. unfold glob_component_ast.
+  destruct (has_dstar c) eqn:E.
+  - destruct (map_o_total _ (split_dstar_pieces _ c (le_n _))) as [rs ->]. cbn [bind]. rewrite Hy. eexists; reflexivity.
+  - destruct (tr_ast_glob_total (S (length c)) c E) as [t Ht]. unfold glob_translate_ast, tr_ast_run. rewrite Ht.
+    cbn [bind]. rewrite Hy. eexists; reflexivity.
+Qed.
+
+Theorem glob_translate_glob_total : forall pat,
+  match resolve (comps pat) with
+  | None => glob_translate_glob pat = Err IllegalBackReference
+  | Some _ => exists lv t, glob_translate_glob pat = Ok (lv, t)
+  end.
+Proof.
+  intro pat. rewrite glob_translate_glob_render. unfold glob_translate_glob_ast. rewrite iteratepath_spec.
+  destruct (resolve (comps pat)) as [pcs|]; [|reflexivity]. cbn [bind].
+  destruct (glob_components_total pcs) as [x ->]. cbn [bind omap]. eexists _, _. reflexivity.
+Qed.
+Print Assumptions glob_translate_glob_total.
